@@ -101,6 +101,7 @@ def reset_singleton(cfg):
     the class body (BitCrcCalculator(table_based=True, configuration=CrcN.ETSI_DMR)): an oracle call must not depend on
     what earlier cases left behind in a long-lived object (purity; replay files must reproduce).  Histories on ONE
     long-lived calculator are the business of the `history` sub-check and of the `prev` message inside a case."""
+    restore_cached_table(cfg)
     cls = fe_class(cfg)
     if cls is None:
         return None
@@ -113,6 +114,33 @@ def pristine_modules(cfg):
     importlib.reload(importlib.import_module("okdmr.dmrlib.etsi.crc.crc"))
     if cfg in FE_MODULE:
         importlib.reload(importlib.import_module(FE_MODULE[cfg][0]))
+
+
+_PRISTINE_TABLES = {}
+
+
+def restore_cached_table(cfg):
+    """The table register shares one cached lookup table per (width, polynomial) across all calculators of the process
+    (functools cache of the public bits_create_lookup_table).  Keep a private copy taken before the first use and put the
+    shared list back to it before an oracle runs, so that a table damaged by an earlier case cannot leak into this one
+    (damage done and visible inside one case is still judged there)."""
+    fn = getattr(_lib(), "bits_create_lookup_table", None)
+    if fn is None or not hasattr(fn, "cache_info"):
+        return
+    # first call in this process tree: nothing has been calculated yet (every oracle starts here) - copy all five tables
+    for c in [cfg] if _PRISTINE_TABLES else CFGS:
+        w = crc_ref.WIDTH[c]
+        try:
+            tbl = fn(w, crc_ref.GENERATORS[c] ^ (1 << w))
+        except Exception:
+            continue
+        if not isinstance(tbl, list):
+            continue
+        mine = _PRISTINE_TABLES.get(c)
+        if mine is None or len(mine) != len(tbl):
+            _PRISTINE_TABLES[c] = [b.copy() if isinstance(b, bitarray) else b for b in tbl]
+        elif tbl != mine:
+            tbl[:] = [b.copy() if isinstance(b, bitarray) else b for b in mine]
 
 
 def calculators(cfg):
@@ -370,6 +398,7 @@ def oracle_front(case):
 def oracle_captured(case):
     """case = {fe, msg, captured}: values captured from real radios (repository test vectors): reference and library agree with them."""
     fe, msg = case["fe"], case["msg"]
+    reset_singleton(FE_CFG[fe])
     if fe_expected(fe, msg) != case["captured"]:
         raise HarnessError(f"reference disagrees with captured vector {case}")
     got = _fe_call(fe, msg)
@@ -389,6 +418,7 @@ def oracle_history(case):
     target, msgs = case["target"], case["msgs"]
     if target.startswith("engine:"):
         _, cfg, mode = target.split(":")
+        restore_cached_table(cfg)
         pristine_modules(cfg)
         if mode == "singleton":
             calc = fe_class(cfg).CALC
@@ -406,6 +436,7 @@ def oracle_history(case):
                 raise Fail("verify_independent_of_earlier_calls", {"call": k, "result": ok}, {"call": k, "result": True}, f"{cfg}:{mode}")
         return
     fe = target
+    restore_cached_table(FE_CFG[fe])
     pristine_modules(FE_CFG[fe])
     first = {}
     for k, msg in enumerate(msgs):
@@ -930,7 +961,7 @@ def st_history():
 
     @st.composite
     def hist(draw):
-        target = draw(st.sampled_from(HISTORY_TARGETS))
+        target = draw(st.one_of(st.sampled_from([t for t in HISTORY_TARGETS if t.startswith("engine:")]), st.sampled_from([t for t in HISTORY_TARGETS if not t.startswith("engine:")])))
         base = _history_base(target)
         msgs = [draw(base)]
         n_rel = 0
